@@ -453,7 +453,11 @@ class MsbuildSolutionRun(Bounded):
                              ('copy_file', (), {'file': 'a.txt'})],
         'equal-base-names': [('copy_file', (), {'file': 'a.txt'}), ('copy_file', (), {'file': 'data/a.txt'}),
                              ('copy_file', ('other/a.txt', 'data/a.txt'), {})],
+        # two steps that would be one project name (one GUID, one project file): refused, like the duplicate rule that
+        # Make and Ninja refuse, or kept apart -- never two entries with one GUID
+        'same-name-twice': [('command', ('foo',), {'cmd': ['echo', 'one']}), ('build_step', ('foo',), {'cmd': ['touch', 'foo']})],
     }
+    MAY_BE_REFUSED = ('same-name-twice',)
 
     def native_inputs(self, case, alphabet, maxlen, rng, extra=0):
         for k in self.SCRIPTS:
@@ -489,6 +493,8 @@ class MsbuildSolutionRun(Bounded):
                 try:
                     msbuild.write(env, build)
                 except Exception as e:      # noqa
+                    if raw['script'] in self.MAY_BE_REFUSED:
+                        return True
                     return self.fail(case, raw, 'solution_is_written', run=attempt, error=repr(e)[:300])
                 finally:
                     os.chdir(cwd)
